@@ -7,7 +7,23 @@ TECH = "bounded symbolic execution of the real go/ssa of /repo (own executor) wi
 # property -> (claimed?, level text, level note)
 CLAIMS = {
  "C01": ("Every path of dataReader.Read over all octet streams up to the stated length (symbolic octets, three segmentation/buffer regimes), compared with a reference unstuffer written from the statement; holds within the bound, bugs come back as concrete streams replayed against the real build.",
-         "Bounds: stream length <= 5 (quick) / 7 (thorough); bufio and dataReader executed from source; longer streams outside the claim except through the per-state table harness."),
+         "Bounds: stream length <= 5 (quick) / 7 (thorough); bufio and dataReader executed from source; longer streams outside the claim."),
+ "C02": ("The real server loop (handleConn, handleData, handleDataLMTP incl. its goroutine, bufio, textproto) executed symbolically on DATA bodies with a bait command and 3-4 arbitrary octets around a '.', every backend read/return behaviour, four size limits and three server flavours; the oracle places the true end marker with refUnstuff and demands that exactly the lines after it execute.",
+         "Bounds: 3 (quick) / 4 (thorough) symbolic 7-bit octets at fixed positions; scheduler without pre-emption (deliveries run to their next blocking point)."),
+ "C03": ("All histories of 3 (quick) / 4 (thorough) commands over an 18-command alphabet, lock-step through the real loop, with symbolic backend verdicts; a reference transaction state machine predicts the exact callback sequence, the reply class of every command and the final envelope state.",
+         "Bounds: history length 3/4, alphabet arguments concrete, MaxRecipients in {0,1}; BDAT histories are covered under C05/C07, STARTTLS/AUTH under C09/C10."),
+ "C04": ("One command line of up to 4 (quick) / 5 (thorough) arbitrary 7-bit octets from three connection states through the real loop: exactly one reply per line, strict RFC 5321 reply grammar with matching enhanced-code class, connection usable afterwards.",
+         "Bounds: line length, 7-bit octets (case mapping of non-ASCII is outside the executor's intrinsic); the echo of control octets is a listed known finding. Pipelining/stale-verdict parts: see DESIGN.md."),
+ "C05": ("BDAT refusal paths with the chunk being a command line (two octets arbitrary) and all chunkings of <= 2/3 chunks of 0..2 arbitrary octets through the real handleBdat, its delivery goroutine and io.Pipe (executed from source on the engine's scheduler), three segmentations.",
+         "Bounds: chunk sizes <= 2, <= 2 (quick) / 3 (thorough) chunks, no pre-emption; MaxLineLength interplay see DESIGN.md (known limitation of the limiter placement)."),
+ "C06": ("One-step inductive harness on the reader's 64-bit budget arithmetic from an arbitrary state; whole DATA transactions with N around the message size, differential on accept/refuse; SIZE= declarations of 1-3 arbitrary digits against an arbitrary limit.",
+         "Bounds: messages <= 2/3 arbitrary octets + CRLF, N <= L+4, SIZE <= 3 digits, limit <= 1200; BDAT limit arithmetic is exercised in C05."),
+ "C07": ("Every cut offset of DATA and two-chunk BDAT conversations with arbitrary message octets, three kinds of connection end, SMTP/LMTP/per-recipient LMTP, plus every abandoning command after a first chunk; the backend reader's terminating error and the replies are compared with what the delivered prefix justifies.",
+         "Bounds: 3/4 message octets, chunks of 2+3 octets, no pre-emption."),
+ "C08": ("Prefix of <= 2/3 commands, one of five closing events, and a suffix of 2 commands already buffered in the same segment, through the real loop; trace oracle with session identities (exactly one Logout, nothing after it, nothing after the closing reply, no recovered panic, no goroutine left).",
+         "Bounds: 8-command alphabet, prefix 2 (quick) / 3 (thorough), suffix 2; idle time-out is an error value returned by the harness connection."),
+ "C19": ("Command lines of arbitrary 7-bit octets (no crash, no recovered panic, one reply, connection survives) and lines around MaxLineLength at three positions under three segmentations through the real limiter, bufio and loop.",
+         "Bounds: MaxLineLength = 24 in the limit harness, line lengths max-3..max+4, lines <= 4/5 octets in the garbage harness; 8-bit command octets outside (case-mapping intrinsic)."),
 }
 NA = {}
 
